@@ -1566,6 +1566,7 @@ func (l *lexer) scanCmdSubst(r rune) bool {
 		left := l.pos
 		// nest
 		ll := &lexer{
+			env:      l.env,
 			name:     l.name,
 			r:        l.r,
 			cmdSubst: r,
